@@ -257,11 +257,12 @@ def beam_cases(draw):
     spec = draw(gb.member_specs())
     F = [draw(st.integers(-4, 4)) / 100.0 for _ in range(3)]
     Mo = [draw(st.integers(-4, 4)) / 100.0 for _ in range(3)]
-    return dict(member=spec, F=F, M=Mo)
+    q = [draw(st.integers(-4, 4)) / 100.0 for _ in range(3)] if draw(st.booleans()) else [0.0, 0.0, 0.0]
+    return dict(member=spec, F=F, M=Mo, q=q)
 
 
-def _tip_response(spec, F_loc, M_loc):
-    """cantilever clamped at p1, tip force/moment given in the member's own axes; returns the tip
+def _tip_response(spec, F_loc, M_loc, q_loc=(0.0, 0.0, 0.0)):
+    """cantilever clamped at p1, tip force/moment and uniform line load given in the member's own axes; returns the tip
     translations and rotations in the member's own axes"""
     simu, mesh, beam, frame = gb.build_member(spec)
     dim = spec["dim"]
@@ -273,6 +274,9 @@ def _tip_response(spec, F_loc, M_loc):
     Mg = P @ np.array(M_loc, float)
     vals = [float(Fg[0]), float(Fg[1]), float(Mg[2])] if dim == 2 else [float(x) for x in (*Fg, *Mg)]
     simu.add_neumann(np.array([n2]), vals, unk)
+    if any(q_loc):
+        qg = P @ np.array(q_loc, float)
+        simu.add_lineLoad(np.arange(mesh.Nn), [float(x) for x in qg[:dim]], unk[:dim])
     u = np.asarray(simu.Solve(), float).reshape(mesh.Nn, -1)[n2]
     if dim == 2:
         ug = np.array([u[0], u[1], 0.0])
@@ -293,11 +297,14 @@ def check_beam(case, rec):
     if dim == 2:
         F[2] = 0.0
         Mo[0] = Mo[1] = 0.0
-    rec.label(f"beam:{kind}:{spec['elemType']}:{dim}d")
-    ul, rl, beam = _tip_response(spec, F, Mo)
+    q = list(case.get("q", [0.0, 0.0, 0.0]))
+    if dim == 2:
+        q[2] = 0.0
+    rec.label(f"beam:{kind}:{spec['elemType']}:{dim}d", "lineload" if any(q) else "tip_loads_only")
+    ul, rl, beam = _tip_response(spec, F, Mo, q)
     ref = dict(spec)
     ref.update(p1=[0.0, 0.0, 0.0], d=[L, 0.0, 0.0], yAxis=None)
-    ul0, rl0, _ = _tip_response(ref, F, Mo)
+    ul0, rl0, _ = _tip_response(ref, F, Mo, q)
     # one common response scale (a zero component is compared with the magnitude of the others)
     scale_u = max(np.abs(ul0).max(), np.abs(rl0).max() * L) + 1e-9
     scale_r = scale_u / L
@@ -310,17 +317,18 @@ def check_beam(case, rec):
         E = spec["E"]
         G = E / (2 * (1 + spec["v"]))
         J = Iy + Iz
-        u_ex = np.array([F[0] * L / (E * A), F[1] * L**3 / (3 * E * Iz) + Mo[2] * L**2 / (2 * E * Iz),
-                         F[2] * L**3 / (3 * E * Iy) - Mo[1] * L**2 / (2 * E * Iy)])
-        r_ex = np.array([Mo[0] * L / (G * J), -F[2] * L**2 / (2 * E * Iy) + Mo[1] * L / (E * Iy),
-                         F[1] * L**2 / (2 * E * Iz) + Mo[2] * L / (E * Iz)])
+        u_ex = np.array([F[0] * L / (E * A) + q[0] * L**2 / (2 * E * A),
+                         F[1] * L**3 / (3 * E * Iz) + Mo[2] * L**2 / (2 * E * Iz) + q[1] * L**4 / (8 * E * Iz),
+                         F[2] * L**3 / (3 * E * Iy) - Mo[1] * L**2 / (2 * E * Iy) + q[2] * L**4 / (8 * E * Iy)])
+        r_ex = np.array([Mo[0] * L / (G * J), -F[2] * L**2 / (2 * E * Iy) + Mo[1] * L / (E * Iy) - q[2] * L**3 / (6 * E * Iy),
+                         F[1] * L**2 / (2 * E * Iz) + Mo[2] * L / (E * Iz) + q[1] * L**3 / (6 * E * Iz)])
         rec.close(ul - u_ex, scale_u, 1e-6, "beam_closed_form_u", f"eb {spec['elemType']} d={spec['d']}: tip "
                   f"translation {ul} vs closed form {u_ex}", **sig)
         rec.close(rl - r_ex, scale_r, 1e-6, "beam_closed_form_r", f"eb {spec['elemType']} d={spec['d']}: tip "
                   f"rotation {rl} vs closed form {r_ex}", **sig)
     i = np.array(spec["d"], float) / L
     inclined = np.abs(np.abs(i).max() - 1.0) > 1e-9
-    rec.nontrivial(inclined and (any(F) or any(Mo)))
+    rec.nontrivial(inclined and (any(F) or any(Mo) or any(q)))
     rec.label("inclined" if inclined else "axis-parallel")
 
 
